@@ -235,6 +235,98 @@ def run_sequence(case):
     return out
 
 
+LONG_T = [31, 32, 33, 63, 64, 65, 70, 95, 96, 97, 127, 128, 129, 130, 160, 200, 257]
+LONG_V = [31, 64, 65, 70, 100, 129, 201, 401]
+
+
+def run_long_axis(case):
+    """axis-length dimension: a temperature (or volume) axis of `n` points, far longer than the lattice's grids (real runs
+    use NT ~ 20-150 and NTV ~ 100-400).  Oracle: (i) row independence - every row/column of the result on the long grid
+    equals what fresh objects return for the same points presented in chunks of <= 8 (grids of that size are compared with
+    the free-energy reference point by point in the lattice part); (ii) the free-energy reference itself at the first two,
+    the middle and the last three points of the long axis."""
+    from cij.core.phonon_contribution.nonshear import (
+        LongitudinalElasticModulusPhononContribution as Long,
+        OffDiagonalElasticModulusPhononContribution as Off,
+    )
+    n, axis = case["n"], case["axis"]
+    base = dict(HIST_SPECS[0])
+    if axis == "T":
+        grid = [2600.0 * (k / float(n)) ** 1.3 for k in range(n)]          # T = 0 first, strictly increasing
+        base["tgrid"] = grid
+    else:
+        grid = [380.0 - 160.0 * k / float(n - 1) for k in range(n)]        # decreasing volumes, as qha lists them
+        base["vgrid"] = grid
+    spec = spec_of(base)
+    duck, laws, w, t, v = D.build(spec)
+    e = D.strain_field("field", v)
+    viol = []
+    comps = [(0, 0), (2, 2), (0, 1), (2, 1)]
+    full = {}
+    for (i, j) in comps:
+        try:
+            obj = (Long if i == j else Off)(duck, (e[:, i], e[:, j]))
+            full[(i, j)] = (numpy.array(obj.zero_point_contribution, float), numpy.array(obj.thermal_contribution, float),
+                            numpy.array(obj.value_isothermal, float))
+        except Exception as ex:
+            seam_guard(ex)
+            viol.append(V(f"c01:long-axis:raises:{type(ex).__name__}", f"{axis} axis of {n} points: component ({i + 1},{j + 1}) raised {ex!r}"))
+    if viol:
+        return {"viol": viol, "nontrivial": True, "outcome": viol[0]["sig"]}
+    for (i, j), (zp, th, val) in full.items():
+        if zp.shape != (len(v),) or th.shape != (len(t), len(v)) or val.shape != (len(t), len(v)):
+            viol.append(V("c01:long-axis:shape", f"{axis} axis of {n} points: shapes zp {zp.shape} th {th.shape} val {val.shape}"))
+        elif not (numpy.all(numpy.isfinite(th)) and numpy.all(numpy.isfinite(val)) and numpy.all(numpy.isfinite(zp))):
+            viol.append(V("c01:long-axis:nonfinite", f"{axis} axis of {n} points: non-finite values in component ({i + 1},{j + 1})"))
+    if viol:
+        return {"viol": viol, "nontrivial": True, "outcome": viol[0]["sig"]}
+    # (i) chunks of <= 8 points on fresh calculator-like objects
+    for a in range(0, n, 8):
+        sl = slice(a, min(n, a + 8))
+        b2 = dict(base)
+        b2["tgrid" if axis == "T" else "vgrid"] = grid[sl]
+        d2, _, _, t2, v2 = D.build(spec_of(b2))
+        for (i, j), (zp, th, val) in full.items():
+            es = e if axis == "T" else e[sl]
+            o2 = (Long if i == j else Off)(d2, (es[:, i], es[:, j]))
+            th2 = numpy.array(o2.thermal_contribution, float)
+            val2 = numpy.array(o2.value_isothermal, float)
+            zp2 = numpy.array(o2.zero_point_contribution, float)
+            thf, valf, zpf = (th[sl], val[sl], zp) if axis == "T" else (th[:, sl], val[:, sl], zp[sl])
+            for name, x, y in (("thermal", thf, th2), ("value", valf, val2), ("zero_point", zpf, zp2)):
+                sc = numpy.abs(y).max() + 1e-300
+                if x.shape != y.shape or not numpy.all(numpy.abs(x - y) <= 1e-11 * sc):
+                    bad = numpy.argwhere(~(numpy.abs(x - y) <= 1e-11 * sc))[0] if x.shape == y.shape else None
+                    viol.append(V(f"c01:long-axis:{axis}:{name}-depends-on-grid-length",
+                                  f"{name} c{i + 1}{j + 1} on a {axis} axis of {n} points differs at points {a}..{sl.stop - 1} (first at {None if bad is None else bad.tolist()}: "
+                                  f"{None if bad is None else float(x[tuple(bad)])!r}) from the same points evaluated as a grid of {sl.stop - a} ({None if bad is None else float(y[tuple(bad)])!r})"))
+                    break
+            if viol:
+                break
+        if viol:
+            break
+    # (ii) free-energy reference at selected points of the long axis
+    if not viol:
+        pick = sorted(set([0, 1, n // 2, n - 3, n - 2, n - 1]))
+        tt, vv = (t[pick], v) if axis == "T" else (t, v[pick])
+        ref = reference(laws, w, tt, vv)
+        for (i, j), (zp, th, val) in full.items():
+            ee = e if axis == "T" else e[pick]
+            ei, ej = ee[:, i], ee[:, j]
+            if i == j:
+                r_th = ref["A_th"] / (5 * ei * ei)[None, :] + ref["P_th"] / (3 * ei)[None, :]
+                s_th = ref["SA_th"] / (5 * ei * ei)[None, :] + ref["SP_th"] / (3 * ei)[None, :]
+            else:
+                r_th = ref["A_th"] / (15 * ei * ej)[None, :]
+                s_th = ref["SA_th"] / (15 * ei * ej)[None, :]
+            obs = th[pick] if axis == "T" else th[:, pick]
+            ok, idx, o, r = close(obs, r_th, s_th, RTOL, RTOL)
+            if not ok:
+                viol.append(V(f"c01:long-axis:{axis}:thermal-mismatch", f"thermal c{i + 1}{j + 1} on a {axis} axis of {n} points: at picked index {idx} (axis points {pick}) observed {o!r}, free-energy reference {r!r}"))
+                break
+    return {"viol": viol, "nontrivial": True, "outcome": "long-axis-ok" if not viol else viol[0]["sig"]}
+
+
 def canon(case):
     c = dict(case)
     nq, na = c["shape"]
@@ -274,6 +366,10 @@ def explore(ctx):
             transitions=sum(len(sq) for sq in seqs) * len(HIST_SPECS))   # incl. reads that fail on a not-yet-usable input and are retried
     orders = [list(p) for L in (2, 3) for p in itertools.permutations(range(len(HIST_SPECS)), L)] + [[0, 0], [1, 1, 1], [0, 1, 0], [2, 0, 2]]
     ctx.run(MOD, "run_sequence", [{"order": o} for o in orders], part="object-sequences", chunksize=1, transitions=sum(len(o) for o in orders))
+    lt = LONG_T if ctx.quick else sorted(set(LONG_T + list(range(17, 201)) + [256, 258, 320, 384, 385, 512, 513]))
+    lv = LONG_V if ctx.quick else sorted(set(LONG_V + list(range(17, 201)) + [256, 257, 400, 402, 512, 513]))
+    ctx.run(MOD, "run_long_axis", [{"axis": "T", "n": n} for n in lt] + [{"axis": "V", "n": n} for n in lv], part="axis-lengths", chunksize=1)
+    ctx.notes["axis_lengths"] = {"T": lt, "V": lv}
     ratios = [r["zp_ratio"] for r in results if r.get("zp_ratio")]
     if ratios:
         lo = min(r[0] for r in ratios)
